@@ -13,7 +13,8 @@ Attribute::value().
     and the bytes consumed, the position after skipping and the advertised sizes.
     TLC also checks skip-as-coded = reading on every case.  gvh-forms replays.
  V: every (name, raw value, normalised value) observed during the replay, and the
-    entries of the self fixture (forms, per-attribute consumption, skip landing),
+    entries of the self fixture and of the compiled corpus (DWARF 2-5 producers:
+    forms, per-attribute consumption, advertised sizes, skip landing),
     are validated by FormsTrace.tla against the form table.
 """
 import json, os, time
@@ -23,7 +24,7 @@ CFG = """INIT Init
 NEXT Next
 CHECK_DEADLOCK FALSE
 CONSTANTS
-  Modes = {"single", "legacy", "indirect", "lists", "norm"}
+  Modes = {"single", "legacy", "indirect", "lists", "norm", "line"}
   FullEnc = %(full)s
   MaxList = 3
   BigList = %(big)s
@@ -44,7 +45,39 @@ def fname(c):
     return FORM_NAMES.get(c, "form%x" % c)
 
 
+def compare_line(ctx, case, o, prof):
+    """the line-table variant of the decoder (read/line.rs parse_attribute)"""
+    tagp = "" if prof == "dev" else ":" + prof
+    enc = case["enc"]
+    fn = fname(case["forms"][0])
+    where = "line-table %s field, v5/%d-bit/%s" % (case["sub"], enc["fmt"], "le" if enc["le"] else "be")
+    if o is None or "outcome" in o:
+        ctx.violation("line:%s:%s%s:%s" % (fn, (o or {}).get("outcome"), tagp, (o or {}).get("loc", "")),
+                      "line-program header with DW_FORM_%s (%s) did not parse normally: %s" % (fn, where, o), case, o)
+        return
+    if not o.get("ok"):
+        if case["must"]:
+            ctx.violation("line:rejected:%s:%s%s" % (fn, o.get("err"), tagp), "DW_FORM_%s as %s rejected: %s" % (fn, where, o.get("err")), case, o)
+        else:
+            ctx.drift.append({"what": "form not implemented by the line-table reader for a vendor-defined content type", "form": fn})
+        return
+    if len(o["files"]) != 2:
+        ctx.violation("line:files:%s%s" % (fn, tagp), "%d file entries reported, 2 encoded (%s)" % (len(o["files"]), where), case, o)
+        return
+    for e, f in zip(case["files"], o["files"]):
+        for fld, want in e.items():
+            if fld == "path":
+                if canon(f["path"]) not in [canon(x) for x in want]:
+                    what = "consumed" if case["sub"] == "skip" else "val"
+                    ctx.violation("line:%s:%s%s" % (what, fn, tagp), "DW_FORM_%s as %s: path reported %s, encoded %s" % (fn, where, f["path"], want), case, o)
+            elif f[fld] != want:
+                ctx.violation("line:%s:%s%s" % (fld, fn, tagp), "DW_FORM_%s as %s: %s reported %s, encoded %s" % (fn, where, fld, f[fld], want), case, o)
+    ctx.nontrivial(repr(("line", case["sub"], enc["fmt"], enc["le"], case["forms"], case["line"])))
+
+
 def compare(ctx, case, o, prof):
+    if case["t"] == "line":
+        return compare_line(ctx, case, o, prof)
     tagp = "" if prof == "dev" else ":" + prof
     forms = case["forms"]
     enc = case["enc"]
@@ -140,7 +173,7 @@ def run(ctx):
             if prof == "dev":
                 novf += 1 if case["ovf"] else 0
                 if i in (0, 4000, 9000):
-                    ctx.sample({"case": {k: case[k] for k in ("t", "enc", "forms", "names", "info", "abbrev", "reads", "skip", "sizes")}, "obs": o})
+                    ctx.sample({"case": {k: case[k] for k in ("t", "enc", "forms", "names", "info", "abbrev", "reads", "skip", "sizes", "line", "files") if k in case}, "obs": o})
             compare(ctx, case, o, prof)
             if prof == "dev" and o and "reads" in o:
                 for rd in o["reads"]:
@@ -156,7 +189,8 @@ def run(ctx):
             f.write(json.dumps(e, separators=(",", ":")) + "\n")
     validate_chunks(ctx, p, module="FormsTrace", chunk=30000, sigprefix="normalise")
     tr = ctx.record(bins["dev"], "forms-fixture.ndjson",
-                    ["--seed", ctx.seed, "--units", 6 if q else 60, "--dies", 300 if q else 3000])
+                    ["--seed", ctx.seed, "--units", 4 if q else 60, "--dies", 150 if q else 3000,
+                     "--corpus", os.path.join(os.path.dirname(SPEC), "corpus")])
     validate_chunks(ctx, tr, module="FormsTrace", chunk=4000, sigprefix="fixture")
 
     ctx.assumptions += [
@@ -166,7 +200,7 @@ def run(ctx):
         "DW_AT_start_scope in DWARF 3 (standard inconsistent) tolerates both",
         "ill-formed attributes (length field beyond the data, unassigned form code, implicit_const below indirect) must be rejected by reading; skipping must fail too, except implicit_const below indirect which may be skipped as a zero-size value",
         "quick tier: address sizes 1/2/4/8 are crossed only with the forms whose size depends on them (addr, ref_addr); lists use 9 size-class representatives x 2 encodings",
-        "line-table attribute parsing (read/line.rs parse_attribute) is not covered by this check",
+        "line-table variant: DWARF 5 file-entry formats only (two fields, two files); forms the line-table reader does not implement are tolerated when they describe a vendor-defined content type (drift)",
     ]
     ctx.finish("model_checking",
                rule="one case per (sub-model, encoding, form / attribute list / attribute name, payload) enumerated by TLC; every case is a distinct encoded unit with the allowed "
@@ -208,5 +242,7 @@ def validate_chunks(ctx, trace, module, chunk, sigprefix):
         ctx.violation(sig, what, ev, None)
         pos += idx
         rejected += 1
-        if rejected > 50:
-            raise ToolError("too many rejected events")
+        if rejected >= 6:
+            # each rejection costs a TLC restart; the violations found so far decide the run
+            log("[c03] %d events rejected, the remaining %d events of this trace are not validated" % (rejected, len(lines) - pos))
+            break
